@@ -1030,6 +1030,54 @@ func directMonitor(name string, k *logKey, msg, blob []byte, refText string) {
 	}
 }
 
+// statefulMonitor: ONE verifier object that has just accepted the genuine checkpoint is shown altered ones (the same
+// text with another timestamp, hash or signature algorithm byte, length, signature bytes; the cases of directStage).
+// Its verdict must be that of a FRESH verifier, and whatever it accepts the independent verifier accepts: a verifier
+// carries no memory of what it verified before (seed C11-6: a "last verified checkpoint" memo keyed without the
+// timestamp and the algorithm byte).
+func statefulMonitor(r *mrand.Rand, s *signed, cases [][2][]byte) {
+	v, err := sunlight.NewRFC6962Verifier(s.name, s.k.pub)
+	if err != nil {
+		panic(err)
+	}
+	vs := append([][2][]byte{}, cases...)
+	alt := func(f func(b []byte)) {
+		b := append([]byte{}, s.blob...)
+		f(b)
+		vs = append(vs, [2][]byte{[]byte(s.text), b})
+	}
+	if len(s.blob) > 12 {
+		alt(func(b []byte) { binary.BigEndian.PutUint64(b, binary.BigEndian.Uint64(b)+3600000) })
+		alt(func(b []byte) { binary.BigEndian.PutUint64(b, binary.BigEndian.Uint64(b)-1) })
+		alt(func(b []byte) { b[r.Intn(8)] ^= 1 << r.Intn(8) })
+		alt(func(b []byte) { b[8] ^= 1 << r.Intn(8) })
+		alt(func(b []byte) { b[9] ^= 2 })
+		alt(func(b []byte) { b[9] = byte(r.Intn(256)) })
+		alt(func(b []byte) { b[12+r.Intn(len(b)-12)] ^= 1 << r.Intn(8) })
+	}
+	for _, c := range vs {
+		first := v.Verify([]byte(s.text), s.blob) // the genuine checkpoint, every time: it is the last one verified
+		got := v.Verify(c[0], c[1])
+		fresh, err := sunlight.NewRFC6962Verifier(s.name, s.k.pub)
+		if err != nil {
+			panic(err)
+		}
+		want := fresh.Verify(c[0], c[1])
+		args := []string{hx([]byte(s.name)), strconv.Itoa(s.k.alg), hx(s.k.pkix), hx([]byte(s.text)), hx(s.blob), hx(c[0]), hx(c[1])}
+		ok, why := got == want, ""
+		if !ok {
+			why = fmt.Sprintf("a verifier that has just verified the genuine checkpoint (%v) answers %v where a fresh verifier answers %v", first, got, want)
+		} else if got {
+			if cp, err := sunlight.ParseCheckpoint(string(c[0])); err != nil || len(c[1]) < 12 {
+				ok, why = false, "accepted an unparsable message"
+			} else if ia, w := independentAccepts(s.k.pub, uint64(cp.N), [32]byte(cp.Hash), binary.BigEndian.Uint64(c[1]), c[1][8:]); !ia {
+				ok, why = false, "accepted after the genuine checkpoint, but the independent verifier rejects: "+w
+			}
+		}
+		mon("mon_stateless", args, ok, why)
+	}
+}
+
 // replayFile re-evaluates the self-contained monitor lines (mon_strict, mon_strict_direct) of a
 // replay file against the current implementation; other lines are passed through unchanged.
 func replayFile(path string) {
@@ -1096,6 +1144,7 @@ func directStage(r *mrand.Rand, s *signed) {
 	for _, c := range cases {
 		directMonitor(s.name, s.k, c[0], c[1], s.text)
 	}
+	statefulMonitor(r, s, cases)
 	// unsupported key type: the closure must reject everything
 	edpub, _, _ := ed25519.GenerateKey(rand.Reader)
 	if ve, err := sunlight.NewRFC6962Verifier(s.name, edpub); err == nil {
